@@ -22,6 +22,9 @@ CONFIG = {
             "participant key / lifetime / weight, L, reveal positions missing / other / swapped / dropped / added, signed weight, SigCommit, salt version, TreeDepth too large / changed with and "
             "without position renaming, proof paths, verifier's proven weight / target / participants commitment) -> 'verify' cases carrying the per-reveal facts "
             "(signature valid, salt, committable), both VC verification results and the coins, all computed with the primitives directly. "
+            "Directed forgeries (expect reject): proofs produced by the real CreateProof from a prover whose slots were filled by hand with EMPTY signatures (all slots / all non-signers / one "
+            "non-signer; also for a message nobody signed), i.e. consistent signature commitment, prefix-sum L values, coin-chosen positions, genuine participant proofs and a claimed signed weight "
+            "above the proven weight -- accepted only if every revealed slot has a valid signature by the revealed participant. "
             "Ledger side ('validate' cases): the real ValidateStateProof on real proofs for custom consensus parameters (interval 4/16, different signer subsets, rounds around the "
             "acceptable-weight ramp, tampered message / round / parameters) and on boundary-heavy (total weight, threshold, last attested round, at-round, signed weight near the acceptable weight) "
             "tuples with a dummy proof; the inner Verifier.Verify outcome is recorded by calling the exported verifier. "
